@@ -783,8 +783,54 @@ def in_context(pid, stmt):
     return stmt
 
 
+class LiteralTwin:
+    """A twin whose two sides are written out by its generator (not rendered from a walk)."""
+    def __init__(self, kind, tags, mk):
+        self.kind, self.tags, self.mk, self.id = kind, set(tags), mk, -1
+
+
+def wrapper_capture_twins():
+    """C02: `X >>> inner <<<` is `.x(|v| v inner)` — an ordinary closure. Operands inside a wrapper capture the caller's locals
+    the way the hand-nested closure does: a Copy counter bumped inside a wrapper is the caller's counter, a move-only local
+    read inside one wrapper can be read again in a later wrapper and after the macro. Sequential macros, wrapper depth 1-2,
+    both wrapper operators at every level, a second wrapper after the first one was closed."""
+    import itertools
+    out = []
+    for kind in ("join", "try_join"):
+        for depth in (1, 2):
+            for wraps in itertools.product(("|>", "=>"), repeat=depth):
+                for second in (False, True):
+                    src = "5u32"
+                    for _ in range(depth + 1):
+                        src = "Some(%s)" % src
+                    user = "|> |x| { hits += 1; z(1, &x); x + tag.0 }"
+                    dsl = src + " " + " ".join("%s >>>" % w for w in wraps) + " " + user + " <<<" * depth
+                    ref = "|x| { hits += 1; z(1, &x); x + tag.0 }"
+                    ref = "v.map(%s)" % ref
+                    for w in reversed(wraps[1:]):
+                        ref = "v.%s(|v| %s)" % ("map" if w == "|>" else "and_then", ref)
+                    ref = "%s.%s(|v| %s)" % (src, "map" if wraps[0] == "|>" else "and_then", ref)
+                    if second:
+                        # the outer value again, then a second wrapper that reads what the first one wrote
+                        dsl += " |> |o| { hits += 100; o } |> >>> -> |i| { z(2, &hits); (i, hits, tag.0) } <<<"
+                        ref = "%s.map(|o| { hits += 100; o }).map(|v| (|i| { z(2, &hits); (i, hits, tag.0) })(v))" % ref
+                    pre = "struct Tag(u32); let tag = Tag(3); let mut hits = 0u32;"
+                    post = "{ let Tag(t) = tag; dbg((__res, hits, t)) }"
+
+                    def mk(pid, kind=kind, dsl=dsl, ref=ref, pre=pre, post=post, depth=depth, second=second):
+                        m = "pub fn m_%d() -> String { %s let __res = %s! { %s }; %s }" % (pid, pre, kind, dsl, post)
+                        r = "pub fn r_%d() -> String { %s let __res = %s; %s }" % (pid, pre, ref, post)
+                        ent = "Twin { id: %d, kind: %s, m: m_%d, r: r_%d, srcs: &[], branches: &[(1, 3)], tags: %s, text: %s, reference: %s, max_id: 4 }" % (
+                            pid, rs(kind), pid, pid, rs("wrap,w:caller_locals_inside_wrapper:depth%d%s" % (depth, "_then_second_wrapper" if second else "")), rs(dsl), rs(ref))
+                        return m + "\n" + r, ent
+                    out.append(LiteralTwin(kind, ["wrap"], mk))
+    return out
+
+
 def render_prog(p, mode="twin"):
     """Returns (source of m_N and r_N, twin table entry) or None if the program cannot be rendered for its kind."""
+    if isinstance(p, LiteralTwin):
+        return p.mk(p.id)
     kind = p.kind
     asy = kind in ASYNC_KINDS
     is_try = kind.startswith("try_")
@@ -1326,6 +1372,10 @@ def build_corpus(tier, seed):
         kind = ALL_KINDS[tries % 12] if rng.random() < 0.6 else rng.choice(SYNC_KINDS)
         length = rng.choice([0, 1, 2, 3, 4, 5, 6, 8] if tier == "quick" else [0, 1, 2, 3, 4, 6, 8, 12, 16])
         keep(gen_prog(0, rng, kind, length))
+    for lt in wrapper_capture_twins():
+        lt.id = pid[0]
+        pid[0] += 1
+        progs.append(lt)
     return progs
 
 
